@@ -357,7 +357,7 @@ class SymbolTable(dict):
         """
         if self.case_sensitive and 'case_sensitive' not in kwargs:
             kwargs['case_sensitive'] = self.case_sensitive
-        if self.parent and 'parent' not in kwargs:
+        if self.parent is not None and 'parent' not in kwargs:
             kwargs['parent'] = self.parent
         obj = type(self)(**kwargs)
         obj.update(self)
